@@ -172,11 +172,19 @@ def rateFee (rate amount : Dec) : Res Nat := do
   let p ← orErr (mul rate amount) .totalOverflow
   orErr (toU128 (rha0 p)) .totalOverflow
 
-/-- `is_invalid_price_precision`: `Some(invalid?)`, `none` = panic on overflow -/
-def badPrecision (price : Dec) (precision : Nat) : Option Bool :=
-  match mul price (ofNat (10 ^ precision)) with
+/-- the price-precision check with the multiplier `10^e` -/
+def badPrecisionPow (price : Dec) (e : Nat) : Option Bool :=
+  match mul price (ofNat (10 ^ e)) with
   | none => none
   | some p => some (hasFract p)
+
+/-- `is_invalid_price_precision`: `Some(invalid?)`, `none` = panic.  The multiplier is
+    `Decimal::from(10u128.pow(price_precision as u32))`: the cast keeps the low 32 bits of the
+    precision, and from `10^29 > 2^96` on the conversion panics (from `10^39` the power itself,
+    the crate is built with overflow checks).  Every configuration the contract stores has
+    precision ≤ 18, where this is `badPrecisionPow price precision`. -/
+def badPrecision (price : Dec) (precision : Nat) : Option Bool :=
+  if precision % 4294967296 < 29 then badPrecisionPow price (precision % 4294967296) else none
 
 /-- fee needed for `q` unspent quote of an order with fee `F` on quote `Q`:
     `rha0(ratio(q,Q) · F)` (both argument orders of the Rust `checked_mul` give this) -/
